@@ -186,6 +186,19 @@ def texts(dialect, rng, n, p_corpus=0.15, p_mut=0.2):
             yield 'corpus-mut', s
         else:
             yield 'soup', soup(dialect, rng, kws, rng.randint(1, 9), allow_bad=rng.random() < 0.3)
+    # the statement family of C05Stmt / C04Lex.words_steps: blank-separated keywords and names (appended, so the items above do not shift)
+    def word():
+        return rng.choice('abcxyzSKI_') + ''.join(rng.choice('abcxyzSKI_0189') for _ in range(rng.randint(0, 9)))
+
+    def anycase(w):
+        return ''.join(ch.upper() if rng.random() < 0.5 else ch.lower() for ch in w)
+    for i in range(max(4, n // 8)):
+        k = rng.random()
+        if k < 0.5:
+            yield 'stmt-family', '%s %s %s %s' % (anycase('select'), word(), anycase('from'), word())
+        else:
+            ws = [anycase(realise(rng.choice(kws)[1], rng)) if rng.random() < 0.5 else word() for _ in range(rng.randint(2, 7))]
+            yield 'words-family', ' '.join(ws) + ' ' + word()
 
 
 def lookalikes(dialect):
